@@ -174,6 +174,37 @@ def wrapper (c : Cfg α) (obs : List (Obs α)) : Except Err (Int × List (Option
         | .ok hs => .ok (hstart, if nvalh = 0 then [] else hs ++ [none])
     | _, _ => .error .tooShort
 
+/-! ### the index as it is stored: unit and time zone
+
+A `DatetimeIndex` stores, for every stamp, an int64 count `raw` of ticks of its unit since the epoch — of
+the UTC instant when the index is time-zone aware.  `tz_localize(None)` turns it into the wall-clock
+reading (adds the zone's UTC offset at that instant, in ticks), `.astype("datetime64[s]")` floors to whole
+seconds.  The UTC offset of stamp i (seconds; 0 for a naive index) is a parameter. -/
+
+inductive TUnit | s | ms | us | ns
+  deriving DecidableEq, Repr
+
+/-- ticks per second -/
+def TUnit.perSec : TUnit → Int
+  | .s => 1
+  | .ms => 1000
+  | .us => 1000000
+  | .ns => 1000000000
+
+/-- `index.tz_localize(None).values.astype("datetime64[s]").astype(np.int64)` for one stamp -/
+def wallSec (u : TUnit) (raw off : Int) : Int := (raw + off * u.perSec) / u.perSec
+
+/-- one stored stamp: raw count, UTC offset in seconds, value -/
+abbrev Stamp (α : Type) := Int × Int × Option α
+
+/-- the observations the wrapper hands to the kernel -/
+def obsOfIndex (u : TUnit) (l : List (Stamp α)) : List (Obs α) :=
+  l.map fun st => (wallSec u st.1 st.2.1, st.2.2)
+
+/-- `dutils.var2h` on a series whose index is stored in unit `u` -/
+def wrapperIdx (c : Cfg α) (u : TUnit) (l : List (Stamp α)) : Except Err (Int × List (Option α)) :=
+  wrapper c (obsOfIndex u l)
+
 end numeric
 
 end HydroVerif.C14
